@@ -232,6 +232,8 @@ def dag_pipeline():
                 break
         if isinstance(st, ast.Return):
             continue
+        if call is None and isinstance(st, ast.Assign) and not any(isinstance(n, ast.Call) for n in ast.walk(st)):
+            continue   # a helper variable without any call (the data flow of the steps is checked by extract_dag)
         if call is None:
             raise ExtractError(f"create_dag_from_session: unrecognised statement {ast.unparse(st)!r}")
         names.append(call)
@@ -392,6 +394,12 @@ SECTION_PROPS["extract_hashsrc"] = ["C12"]
 from extract_exprgen import exprgen_section  # noqa: E402  (M3 tie: ExprGen.lean / Properties/ExprTie.lean)
 EXTRA_SECTIONS.append(exprgen_section)
 SECTION_PROPS["extract_exprgen"] = ["C16"]
+from extract_sorter import sorter_section  # noqa: E402  (M2 tie: SorterGen.lean / Properties/SorterTie.lean)
+EXTRA_SECTIONS.append(sorter_section)
+SECTION_PROPS["extract_sorter"] = ["C01", "C18", "C19"]
+from extract_dag import dag_section  # noqa: E402  (M6 tie, DAG construction: DagGen.lean / Properties/DagTie.lean)
+EXTRA_SECTIONS.append(dag_section)
+SECTION_PROPS["extract_dag"] = ["C01", "C02", "C03", "C04", "C05", "C06", "C08", "C09", "C10", "C17"]
 
 
 def main(write: bool = True) -> int:
